@@ -257,20 +257,27 @@ func (k Keeper) deductUnbondingDelegation(ctx context.Context, delAddr sdk.AccAd
 		return math.Int{}, types.ErrNoUnbondingDelegationEntries
 	}
 	removeAmt := math.ZeroInt()
-	for i, u := range ubd.Entries {
-		if u.Balance.LT(tokens) {
+	// entries are collected into a new slice: removing from ubd.Entries while ranging over it shifts the
+	// remaining entries under the loop index
+	kept := make([]stakingtypes.UnbondingDelegationEntry, 0, len(ubd.Entries))
+	done := false
+	for _, u := range ubd.Entries {
+		switch {
+		case done:
+			kept = append(kept, u)
+		case u.Balance.LT(tokens):
 			tokens = tokens.Sub(u.Balance)
 			removeAmt = removeAmt.Add(u.Balance)
-			ubd.RemoveEntry(int64(i))
-		} else {
+		default:
 			u.Balance = u.Balance.Sub(tokens)
 			u.InitialBalance = u.InitialBalance.Sub(tokens)
-			ubd.Entries[i] = u
+			kept = append(kept, u)
 			removeAmt = removeAmt.Add(tokens)
 			tokens = math.ZeroInt()
-			break
+			done = true
 		}
 	}
+	ubd.Entries = kept
 
 	if len(ubd.Entries) == 0 {
 		err = k.stakingKeeper.RemoveUnbondingDelegation(ctx, ubd)
